@@ -326,14 +326,26 @@ def r_new_shell(w, op):
     if coord is None:
         coord = np.array(cm["xyz"], dtype=float)
     angmom, ctype, ic = op["angmom"], op["ctype"], op["icenter"]
+    keep = op.get("keep", True)
+    cargs = [["angmom", angmom, "scalar"], ["coord", coord, "vec3"], ["coeffs", coeffs, "coeffs"],
+             ["exps", exps, "exps"], ["coord_type", ctype, "str"], ["icenter", ic, "scalar"]]
+    valid = True
+    inv = op.get("invalid")
+    if inv and not keep:
+        t = cargs[inv["arg"] % len(cargs)]
+        t[1] = corrupt(t[1], t[2], inv["kind"])
+        valid = False
+    a = [x[1] for x in cargs]
 
     def call():
-        return cls(angmom, coord, coeffs, exps, ctype, icenter=ic)
+        return cls(a[0], a[1], a[2], a[3], a[4], icenter=a[5])
 
     def post(sh):
         w.shells.append(Entry(sh, meta={"cls": op["cls"]}))
 
-    b = Bound("W", "GeneralizedContractionShell", call=call, post=post, args=[coord, coeffs, exps])
+    b = Bound("W" if keep else "query", "GeneralizedContractionShell", call=call, post=post if keep else None,
+              args=[x for x in a if isinstance(x, np.ndarray)])
+    b.valid = valid
     return b
 
 
@@ -1181,6 +1193,7 @@ def _bind_cls_array(w, op, basis, nbf, rs, reuse, pts, charges_for, int_array, f
 RESOLVERS = {
     "new_coords": r_new_coords,
     "new_shell": r_new_shell,
+    "ctor": r_new_shell,
     "new_container": r_new_container,
     "write_file": r_write_file,
     "parse": r_parse,
